@@ -246,7 +246,7 @@ func init() {
 	// ---------------- C09 ----------------
 	harness.Register(&harness.Check{
 		ID: "C09", Level: "model_checking",
-		Rule:        progRule + ", plus every text among the enumerated token strings (<= 3 / <= 4 tokens) that the parser accepts; for each, ALL schedules of Typecheck's two tasks (caller and worker goroutine) are executed under the controlled scheduler (S-full), and the remaining tasks are run to quiescence after Typecheck has returned; oracle: an answer (nil or a non-empty error) within fuel, no panic in any task before or after the return, nil implies no panic; states/transitions as for C01",
+		Rule:        progRule + ", plus every text among the enumerated token strings (<= 3 / <= 4 tokens) that the parser accepts and all 4096 alias/recursion/mode graphs over three type names with a forwarding function between two of them; for each, ALL schedules of Typecheck's two tasks (caller and worker goroutine) are executed under the controlled scheduler (S-full), and the remaining tasks are run to quiescence after Typecheck has returned; oracle: an answer (nil or a non-empty error) within fuel, no panic in any task before or after the return, nil implies no panic; states/transitions as for C01",
 		Assumptions: mcAssumptions[:2],
 		Cases:       func(c *harness.Ctx) int { return getMutSpace(c).total + c09GarbageCases(c) },
 		Run: func(c *harness.Ctx, idx int, r *harness.Rec) {
@@ -409,6 +409,15 @@ func c09GarbageAll(c *harness.Ctx) []string {
 				out = append(out, s)
 			}
 		}
+	}
+	// alias / recursion graphs over three type names, each with a function that forwards between two
+	// of the names (this drives the equality and contractivity code from inside Typecheck)
+	ab := aliasBodies()
+	sp := gen.EnvSpace{Names: []string{"A", "B", "C"}, Bodies: ab, N: 3}
+	for i := 0; i < sp.Count(); i++ {
+		e := sp.At(i)
+		pair := [][2]string{{"A", "B"}, {"B", "C"}, {"C", "A"}}[i%3]
+		out = append(out, e.String()+fmt.Sprintf("let f(x : %s) : %s = fwd self x\n", pair[0], pair[1]))
 	}
 	// hand-picked grammatical fragments with odd shapes
 	out = append(out,
